@@ -96,6 +96,106 @@ theorem verdict_bucket (s : Sess) (d : Dest) (accepted rejects : Bool) (hd : fin
   rw [hd]
   cases accepted <;> cases rejects <;> simp [setDest']
 
+/-! ### whole histories of submits -/
+
+/-- one submit of a history: job id, the share's proof-of-work input, the name it was sent under -/
+abbrev Sub := String × List Nat × String
+
+/-- the synchronous submit path over a whole history; a submit without an assigned destination is
+refused and leaves the session as it is -/
+def submitAll (pow : Pow) : Sess → List Sub → Sess × List SubmitRes
+  | s, [] => (s, [])
+  | s, x :: xs =>
+    match submitSync pow s x.1 x.2.1 x.2.2 with
+    | none => submitAll pow s xs
+    | some r => let rr := submitAll pow r.s xs; (rr.1, r :: rr.2)
+
+def totalCredit (rs : List SubmitRes) : Nat := (rs.map (·.credit)).sum
+def acceptedCount (rs : List SubmitRes) : Nat := (rs.filter (·.accepted)).length
+def rejectedCount (rs : List SubmitRes) : Nat := (rs.filter (fun r => !r.accepted)).length
+
+/-- **Conservation over every history of submits**, of any length: what the miner ledger and the
+worker ledger gained is exactly the sum of the credits of the accepted shares — nothing is credited
+twice, nothing is lost, a rejected share contributes nothing — and every processed submit is counted
+exactly once as accepted or as rejected. -/
+theorem ledgers_history (s : Sess) (xs : List Sub) :
+    (submitAll pow s xs).1.minerWork = s.minerWork + totalCredit (submitAll pow s xs).2 ∧
+    (submitAll pow s xs).1.workerWork = s.workerWork + totalCredit (submitAll pow s xs).2 ∧
+    (submitAll pow s xs).1.minerShares = s.minerShares + acceptedCount (submitAll pow s xs).2 ∧
+    (submitAll pow s xs).1.srcAcc = s.srcAcc + acceptedCount (submitAll pow s xs).2 ∧
+    (submitAll pow s xs).1.srcRej = s.srcRej + rejectedCount (submitAll pow s xs).2 := by
+  induction xs generalizing s with
+  | nil => simp [submitAll, totalCredit, acceptedCount, rejectedCount]
+  | cons x xs ih =>
+    unfold submitAll
+    cases h : submitSync pow s x.1 x.2.1 x.2.2 with
+    | none => exact ih s
+    | some r =>
+      simp only
+      have l := ledgers pow s x.1 x.2.1 x.2.2 r h
+      have i := ih r.s
+      cases ha : r.accepted with
+      | true =>
+        obtain ⟨l1, l2, l3, l4, l5, _⟩ := l.1 ha
+        simp only [totalCredit, acceptedCount, rejectedCount, List.map_cons, List.sum_cons,
+          List.filter_cons, ha, if_true, List.length_cons, Bool.not_true, Bool.false_eq_true, if_false] at i ⊢
+        refine ⟨?_, ?_, ?_, ?_, ?_⟩
+        · rw [i.1, l1]; omega
+        · rw [i.2.1, l2]; omega
+        · rw [i.2.2.1, l3]; omega
+        · rw [i.2.2.2.1, l4]; omega
+        · rw [i.2.2.2.2, l5]
+      | false =>
+        obtain ⟨l1, l2, l3, l4, l5, l6, _⟩ := l.2 ha
+        simp only [totalCredit, acceptedCount, rejectedCount, List.map_cons, List.sum_cons,
+          List.filter_cons, ha, if_true, List.length_cons, Bool.not_false, Bool.false_eq_true, if_false, l6] at i ⊢
+        refine ⟨?_, ?_, ?_, ?_, ?_⟩
+        · rw [i.1, l1]; omega
+        · rw [i.2.1, l2]; omega
+        · rw [i.2.2.1, l3]
+        · rw [i.2.2.2.1, l4]
+        · rw [i.2.2.2.2, l5]; omega
+
+/-- the miner ledger and the worker ledger never drift apart, whatever is submitted -/
+theorem ledgers_agree_history (s : Sess) (xs : List Sub) (h : s.minerWork = s.workerWork) :
+    (submitAll pow s xs).1.minerWork = (submitAll pow s xs).1.workerWork := by
+  have l := ledgers_history pow s xs
+  rw [l.1, l.2.1, h]
+
+/-- every processed submit of a history is counted, once -/
+theorem every_submit_counted (s : Sess) (xs : List Sub) :
+    (submitAll pow s xs).1.srcAcc + (submitAll pow s xs).1.srcRej =
+      s.srcAcc + s.srcRej + (submitAll pow s xs).2.length := by
+  have l := ledgers_history pow s xs
+  rw [l.2.2.2.1, l.2.2.2.2]
+  have : ∀ rs : List SubmitRes, acceptedCount rs + rejectedCount rs = rs.length := by
+    intro rs
+    induction rs with
+    | nil => rfl
+    | cons r rs ih =>
+      unfold acceptedCount rejectedCount at ih ⊢
+      cases ha : r.accepted <;> simp [List.filter_cons, ha] <;> omega
+  have := this (submitAll pow s xs).2
+  omega
+
+/-- in every history a rejected share carries no credit and fires no task callback -/
+theorem rejected_no_credit_history (s : Sess) (xs : List Sub) :
+    ∀ r ∈ (submitAll pow s xs).2, r.accepted = false → r.credit = 0 ∧ r.cbFired = none := by
+  induction xs generalizing s with
+  | nil => intro r hr; simp [submitAll] at hr
+  | cons x xs ih =>
+    unfold submitAll
+    cases h : submitSync pow s x.1 x.2.1 x.2.2 with
+    | none => exact ih s
+    | some r0 =>
+      simp only
+      intro r hr ha
+      rcases List.mem_cons.mp hr with e | e
+      · subst e
+        have l := (ledgers pow s x.1 x.2.1 x.2.2 r h).2 ha
+        exact ⟨l.2.2.2.2.2.1, l.2.2.2.2.2.2⟩
+      · exact ih r0.s r e ha
+
 /-! ### tasks -/
 
 /-- a successful switch — also one to the current destination — installs exactly the callback it
